@@ -33,6 +33,9 @@ use std::{
 
 mod internal_metrics;
 
+#[cfg(emit_rs_emit_verif)]
+pub mod verif;
+
 /**
 A channel between a shared [`Sender`] and exclusive [`Receiver`].
 
@@ -168,6 +171,8 @@ pub struct Sender<T> {
 
 impl<T> Drop for Sender<T> {
     fn drop(&mut self) {
+        #[cfg(emit_rs_emit_verif)]
+        crate::verif::before_lock(&self.shared.state, "sender_drop");
         self.shared.state.lock().unwrap().is_open = false;
     }
 }
@@ -179,6 +184,8 @@ impl<T: Channel> Sender<T> {
     The item will be processed at some future point by the [`Receiver`]. If pushing the item would overflow the maximum capacity of the channel it will be cleared first.
     */
     pub fn send<'a>(&self, msg: T::Item) {
+        #[cfg(emit_rs_emit_verif)]
+        crate::verif::before_lock(&self.shared.state, "send");
         let mut state = self.shared.state.lock().unwrap();
 
         // If the channel is full then drop it; this prevents OOMing
@@ -203,6 +210,8 @@ impl<T: Channel> Sender<T> {
     The item will be processed at some future point by the [`Receiver`]. If pushing the item would overflow the maximum capacity of the channel then this method will return `Err`.
     */
     pub fn try_send<'a>(&self, msg: T::Item) -> Result<(), BatchError<T::Item>> {
+        #[cfg(emit_rs_emit_verif)]
+        crate::verif::before_lock(&self.shared.state, "try_send");
         let mut state = self.shared.state.lock().unwrap();
 
         if !state.is_open {
@@ -261,6 +270,8 @@ impl<T: Channel> Sender<T> {
     The watcher is guaranteed to trigger at a point where the current batch is empty.
     */
     pub fn when_empty(&self, f: impl FnOnce() + Send + 'static) {
+        #[cfg(emit_rs_emit_verif)]
+        crate::verif::before_lock(&self.shared.state, "when_empty");
         let mut state = self.shared.state.lock().unwrap();
 
         // If:
@@ -282,6 +293,8 @@ impl<T: Channel> Sender<T> {
     The watcher is guaranteed to trigger at a point where the batch that was processing at the time this call was made has completed.
     */
     pub fn when_flushed(&self, f: impl FnOnce() + Send + 'static) {
+        #[cfg(emit_rs_emit_verif)]
+        crate::verif::before_lock(&self.shared.state, "when_flushed");
         let mut state = self.shared.state.lock().unwrap();
 
         // If:
@@ -329,6 +342,8 @@ pub struct Receiver<T> {
 
 impl<T> Drop for Receiver<T> {
     fn drop(&mut self) {
+        #[cfg(emit_rs_emit_verif)]
+        crate::verif::before_lock(&self.shared.state, "receiver_drop");
         self.shared.state.lock().unwrap().is_open = false;
 
         // NOTE: If the sender is waiting for a flush it may time out
@@ -361,6 +376,8 @@ impl<T: Channel> Receiver<T> {
         loop {
             // Run inside the lock
             let (mut current_batch, is_open) = {
+                #[cfg(emit_rs_emit_verif)]
+                crate::verif::before_lock(&self.shared.state, "exec_swap");
                 let mut state = self.shared.state.lock().unwrap();
 
                 // NOTE: We don't check the `is_open` value here because we want a chance to emit
@@ -657,6 +674,8 @@ pub struct ChannelMetrics<T> {
 
 impl<T: Channel> emit::metric::Source for ChannelMetrics<T> {
     fn sample_metrics<S: emit::metric::sampler::Sampler>(&self, sampler: S) {
+        #[cfg(emit_rs_emit_verif)]
+        crate::verif::before_lock(&self.shared.state, "sample_metrics");
         let queue_length = { self.shared.state.lock().unwrap().next_batch.channel.len() };
 
         let metrics = self
